@@ -607,7 +607,7 @@ def main():
     # ---- (5) sparsity from knot vectors
     if run.want('sparsity'):
         ns['np'].__dict__['searchsorted'] = searchsorted_stub
-        for (n1, n2, ms) in [(2, 2, 3), (3, 2, 3), (2, 3, 3), (3, 3, 4)] + ([(4, 3, 4), (3, 4, 4), (4, 4, 5)] if thorough else []):
+        for (n1, n2, ms) in [(2, 2, 3), (3, 2, 3), (2, 3, 3), (3, 3, 4)] + ([(4, 3, 3), (3, 4, 3)] if thorough else []):
             h, (s1, s2) = sparsity_harness(n1, n2, ms, ns)
             st = sx.explore(h, timeout_ms=60000, max_paths=200000)
             run.absorb(st, 'sparsity', bound={'fn': 'compute_sparsity_ij', 'functions': [n1, n2], 'spans<=': ms},
